@@ -59,6 +59,10 @@ func genText(r *rand.Rand, sep string) textSpec {
 	if r.Intn(12) == 0 {
 		n = 0
 	}
+	if r.Intn(40) == 0 {
+		// 4..12 KiB: crosses the 4096-byte buffers of csv.Reader, csv.Writer and bufio more than once
+		n = 120 + r.Intn(200)
+	}
 	width := 1 + r.Intn(4)
 	ragged := r.Intn(8) == 0
 	broken := r.Intn(9) == 0
@@ -206,10 +210,30 @@ func genWriteScript(r *rand.Rand, total, faultPct int) Script {
 	return s
 }
 
+// oddTable is the table with records no parse yields put in: nil, empty, one empty field.
+func oddTable(r *rand.Rand, recs [][]string) [][]string {
+	out := copyRecs(recs)
+	for k := 1 + r.Intn(3); k > 0; k-- {
+		var odd []string
+		switch r.Intn(4) {
+		case 0:
+			odd = []string{}
+		case 1:
+			odd = []string{""}
+		case 2:
+			odd = []string{"", ""}
+		}
+		at := r.Intn(len(out) + 1)
+		out = append(out[:at], append([][]string{odd}, out[at:]...)...)
+	}
+	return out
+}
+
 // genGroup draws one text and one option set and spreads them over every kind.
 func genGroup(r *rand.Rand, idx int) []*Case {
 	var text string
 	var o Opts
+	nrecs := 3
 	if idx < len(fixedTexts)*2 {
 		text = fixedTexts[idx%len(fixedTexts)]
 		o, _ = genOpts(r, 3)
@@ -227,14 +251,20 @@ func genGroup(r *rand.Rand, idx int) []*Case {
 		var sep string
 		o, sep = genOpts(r, nrecsGuess)
 		ts := genText(r, sep)
-		text = ts.text
+		text, nrecs = ts.text, ts.nrecs
 		if o.Skip > ts.nrecs+2 {
 			o.Skip = ts.nrecs + 2
 		}
 	}
 	recs, perr := refParse(text, o, true)
 	n := len(skipRecs(recs, o.Skip))
-	_ = perr
+	if perr != nil {
+		// pre-states are sized after the records written down, although the text does not parse
+		n = nrecs - o.Skip
+		if n < 0 {
+			n = 0
+		}
+	}
 	var out []*Case
 	// consumer: every documented kind, a pre-state each
 	for _, kind := range append(append([]string{}, destRecordKinds...), destByteKinds...) {
@@ -277,6 +307,38 @@ func genGroup(r *rand.Rand, idx int) []*Case {
 		if kind == "*csv.Writer" || kind == "writer" {
 			c.O = genWriteScript(r, len(text)+8, 6)
 		}
+		// fallible collaborators: the destination's own Write / Error / ReadFrom / UnmarshalBinary fails
+		if r.Intn(12) == 0 {
+			switch kind {
+			case "csvwriter", "csvwriter-retaining":
+				c.O = Script{Fault: true, ErrAt: r.Intn(n + 2), ErrData: r.Intn(2) == 0}
+			case "readerfrom", "binunm":
+				c.O = Script{Fault: true}
+			}
+		}
+		if kind == "csvwriter-retaining" && o.Reuse {
+			// a CSVWriter that keeps the slices it is handed although record reuse was requested is not
+			// generated: record reuse MEANS that the slice handed to Write is only valid during the call
+			// (csv.Reader.ReuseRecord; Write methods must not retain their argument). An earlier version of
+			// the oracle flagged it on the unchanged tree: false alarm, see DESIGN 9.3.
+			continue
+		}
+		// later calls, after which the judged destination is read again
+		switch {
+		case kind == "*[]byte" || kind == "*named-bytes":
+			if r.Intn(2) == 0 {
+				c.Post = 1 + r.Intn(2)
+			}
+		case r.Intn(6) == 0:
+			c.Post = 1 + r.Intn(2)
+		}
+		// the reader: without Close, or one of the concrete standard readers
+		switch r.Intn(12) {
+		case 0:
+			c.RK = "plain"
+		case 1:
+			c.RK, c.S = []string{"bytes.Buffer", "bytes.Reader", "strings.Reader"}[r.Intn(3)], Script{}
+		}
 		out = append(out, c)
 	}
 	// a few undocumented kinds
@@ -292,6 +354,20 @@ func genGroup(r *rand.Rand, idx int) []*Case {
 		switch kind {
 		case "*csv.Reader", "reader", "readcloser", "writerto":
 			c.O = genReadScript(r, len(text), 6)
+		case "csvreader":
+			if r.Intn(12) == 0 {
+				c.O = Script{Fault: true, ErrAt: r.Intn(len(recs) + 1)} // the CSVReader's own Read fails
+			}
+		case "binm":
+			if r.Intn(12) == 0 {
+				c.O = Script{Fault: true} // MarshalBinary fails
+			}
+		}
+		if isIn(srcTableKinds, kind) && perr == nil && r.Intn(8) == 0 {
+			c.Table = oddTable(r, recs)
+		}
+		if r.Intn(6) == 0 {
+			c.Post = 1 + r.Intn(2)
 		}
 		out = append(out, c)
 	}
